@@ -234,4 +234,5 @@ def gen_pipeline_case(rng, families=None, methods=('cycles', 'amp'), nsec=(1.0, 
     view = [None, None, None, None, None, None, 'strided', 'readonly'][int(rng.integers(0, 8))]
     return dict(sig=sig, sig_view=view, fs=fs, f_range=(lo, hi), center_extrema=center, burst_method=method,
                 burst_kwargs=bk, threshold_kwargs=thr, find_extrema_kwargs=fek,
-                return_samples=bool(rng.random() < 0.8), family=kind, route=route)
+                return_samples=bool(rng.random() < 0.8), family=kind, route=route,
+                obj_refit=[None, 'attribute', 'buffer'][int(rng.integers(0, 3))])
